@@ -42,14 +42,7 @@ METH_O_PATHS = ["func", "tpcall", "partial", "literal", "cpdef", "cmeth", "cunbo
 # exhaustive families (cfg files; `bounds` = MaxPO, MaxPK, MaxKO of the union of the signature sets) and the
 # budget for the sampled 6/6/6 family (spec SimSpec, TLC -simulate)
 QUICK = {"cfg": ["ArgBind_quick"], "bounds": (1, 1, 2), "sim_s": 0, "sim_sigs": 0}
-THOROUGH = {"cfg": ["ArgBind_quick", "ArgBind_t0", "ArgBind_t1", "ArgBind_t2", "ArgBind_k3"], "bounds": (2, 2, 2), "sim_s": 150,
-            "sim_sigs": 120}
-
-
-def in_quick_family(c):
-    """is this published case also a state of ArgBind_quick.cfg? (the thorough families overlap with it)"""
-    n = c[0] + c[1]
-    return c[0] <= 1 and c[1] <= 1 and len(c[4]) <= 2 and c[6] <= min(3, n + 1) and len(c[7]) <= 2
+THOROUGH = {"cfg": ["ArgBind_quick", "ArgBind_t1", "ArgBind_t2", "ArgBind_k3"], "bounds": (2, 2, 2), "sim_s": 120, "sim_sigs": 80}
 
 
 def chunks(seq, n):
@@ -65,7 +58,7 @@ class Builder(object):
         self.modules = []    # (kind, name, source)
         self.errors = []
 
-    def add_sigs(self, tag, sigs, call_sigs, per_mod=260, per_call_mod=90):
+    def add_sigs(self, tag, sigs, call_sigs, per_mod=380, per_call_mod=120):
         for i, ch in enumerate(chunks(sigs, per_mod)):
             self.modules.append(("func", "c24f_%s%d" % (tag, i), L.source_funcs(ch)))
             self.modules.append(("meth", "c24m_%s%d" % (tag, i), L.source_methods(ch)))
@@ -209,6 +202,13 @@ def describe(case, path, config):
             "has_keywords": len(case[7]) > 0}
 
 
+def render(case):
+    """a published case written out for a reader"""
+    return {"def": "f(%s)" % L.params(L.sig_of_case(case))[0], "positional_values": list(range(1, case[6] + 1)),
+            "keywords": [{"name": n, "key_kind": k, "value": 101 + j} for j, (n, k) in enumerate(case[7])],
+            "expected": ({"params": case[10], "args": case[11], "kw": case[12]} if case[8] else "TypeError (%s)" % case[9])}
+
+
 def obs_class(want, got):
     if isinstance(got, str) and got.startswith("CRASH"):
         return "crash"
@@ -284,7 +284,7 @@ def run(tier, seed):
     bld = Builder(wd, jobs)
     bld.add_sigs("b", sigs, call_sigs)
     if sim_sigs:
-        bld.add_sigs("s", sim_sigs, sim_sigs[:60], per_mod=60, per_call_mod=30)
+        bld.add_sigs("s", sim_sigs, sim_sigs[:40], per_mod=80, per_call_mod=40)
     built = {}
 
     def do_build():
@@ -301,13 +301,17 @@ def run(tier, seed):
     sig_seen = set()
     samples = []
     actions = {}
+    seen_keys = set()
     with open(casesf, "w") as cf:
         for cfg in plan["cfg"]:
             r = core.tlc_or_die("ArgBind", cfg=cfg, timeout=1500, workers=jobs)
             cov["tlc"].append(dict(r.summary(), config=cfg))
             for c in r.printed:
-                if cfg != "ArgBind_quick" and tier != "quick" and in_quick_family(c):
-                    continue      # already published by ArgBind_quick
+                if len(plan["cfg"]) > 1:
+                    key = json.dumps(c, separators=(",", ":"))
+                    if key in seen_keys:
+                        continue      # the families overlap: each case is replayed once
+                    seen_keys.add(key)
                 cf.write(json.dumps(c, separators=(",", ":")) + "\n")
                 ncases += 1
                 classes[c[9]] = classes.get(c[9], 0) + 1
@@ -327,11 +331,12 @@ def run(tier, seed):
                     actions[a] = actions.get(a, 0) + 1
                 sig_seen.add(L.sig_of_case(c))
                 if len(samples) < 4 and c[7] and rng.random() < 0.001:
-                    samples.append(c)
+                    samples.append(render(c))
             if r.distinct != len(r.printed):
                 core.die("%s: %d distinct states but %d published cases" % (cfg, r.distinct, len(r.printed)))
             del r
         nbfs = ncases
+        del seen_keys
         for c in sim_cases:
             cf.write(json.dumps(c, separators=(",", ":")) + "\n")
             ncases += 1
@@ -427,7 +432,7 @@ def run(tier, seed):
         "configs": per_config, "cpython_oracle_calls": sum(pstats.values()),
         "rule": "every state of spec/ArgBind.tla within the cfg bounds is one (signature, call) case; each is executed through every "
                 "applicable call path in every built configuration; non-trivial = distinct case whose call carries at least one argument",
-        "samples": samples or [json.loads(open(casesf).readline())],
+        "samples": samples or [render(json.loads(open(casesf).readline()))],
     })
     rc = rep.finish()
     cov["known_findings"] = rep.kf_summary()
